@@ -68,7 +68,7 @@ def leg_R(ctx, cfg, alphabet, maxlen, rnd):
     opath = os.path.join(ctx.work, "trie_replay_%s.json" % cfg)
     ctx.vh(["trie-replay", gpath, opath])
     res = json.load(open(opath))
-    vlib.log("  [R] %s: %d model transitions x 3 variants executed on the real trie (bytes %s), %d mismatches" % (
+    vlib.log("  [R] %s: %d model transitions x 4 variants executed on the real trie (bytes %s), %d mismatches" % (
         cfg, len(g["edges"]), reps, len(res["mismatches"] or [])))
     ctx.traces += res["executed"]
     ctx.extra["replayed_transitions"] = ctx.extra.get("replayed_transitions", 0) + res["executed"]
